@@ -34,6 +34,23 @@ rewrite ltnS => mh; rewrite !PP_recl ?IH ?mulmxA //; exact: leq_trans mh.
 Qed.
 End Prod.
 
+Section ProdExt.
+Variables (F : fieldType) (m : nat).
+Lemma Pg_ext (a b : nat -> 'M[F]_m) lo g :
+  (forall k, (lo <= k < lo + g)%N -> a k = b k) -> Pg a lo g = Pg b lo g.
+Proof.
+elim: g => [|g IH] //= H; rewrite IH ?H //.
+  by rewrite leq_addr addnS ltnS leqnn.
+by move=> k /andP[lk kg]; apply: H; rewrite lk addnS ltnS ltnW.
+Qed.
+Lemma PP_ext (a b : nat -> 'M[F]_m) lo hi :
+  (forall k, (lo <= k < hi)%N -> a k = b k) -> PP a lo hi = PP b lo hi.
+Proof.
+move=> H; rewrite /PP; case: (leqP lo hi) => [le|/ltnW]; last by rewrite -subn_eq0 => /eqP ->.
+by apply: Pg_ext => k; rewrite subnKC //; exact: H.
+Qed.
+End ProdExt.
+
 Section Den.
 Variable F : fieldType.
 Variables (n m : nat).
